@@ -48,6 +48,14 @@ fn main() {
             };
             std::process::exit(code);
         }
+        "debug-far" => {
+            let mut rng = rng::Rng::new(1, 1);
+            for _ in 0..5 {
+                let g = props::position::far_repeat_game(&mut rng);
+                eprintln!("{:?}", g.map(|g| (g.moves.len(), g.command(None))));
+            }
+            std::process::exit(0);
+        }
         "run" => {}
         _ => usage(),
     }
